@@ -93,6 +93,33 @@ int32 verif_cur_frame, verif_bp_start; struct fsg_lextree_s *verif_lt;
 #define VERIF_WT_POST(root, e, score, lc, rc, bpidx, thresh, nf) \
     VERIF_ENTER_POST(root, CTXT_HAS((root)->ctxt, (e)->lc) && CTXT_HAS((e)->rc, (root)->ci_ext), (e)->score + (root)->logs2prob, bpidx, thresh, nf)
 
+/* ---- loop vocabulary of fsg_search_hmm_prune_prop (annotation prune_prop.active): the active list is seen through one
+ * list cell (verif_gcell) whose node is one node cell (verif_ncell), both arbitrary at every step subject to the invariant */
+fsg_pnode_t verif_ncell; gnode_t verif_gcell; unsigned long verif_trans_calls;
+int32 verif_pp_frame_before; unsigned long verif_pp_add_before, verif_pp_trans_before;
+#define VERIF_PT_ENTER() (verif_trans_calls++)
+#define NCELL_OK(fsgs) ((verif_ncell.hmm.frame == (fsgs)->frame || verif_ncell.hmm.frame == (fsgs)->frame + 1) \
+        && verif_ncell.hmm.out_score <= 0 && verif_ncell.hmm.out_score >= WORST_SCORE && HIST_SRC(verif_ncell.hmm, verif_psrc) \
+        && (verif_ncell.leaf != 0 ? (void *)verif_ncell.next.succ == (void *)verif_fl : (verif_ncell.next.succ == NULL || verif_ncell.next.succ == &verif_pcell)))
+#define VERIF_PP_ASSIGNS verif_ncell, verif_gcell, VERIF_PT_ASSIGNS, verif_trans_calls, verif_add_n, verif_add_link, verif_add_frame, verif_add_score, verif_add_pred, verif_add_lc, verif_add_rc, \
+                         verif_dictwid, verif_pp_frame_before, verif_pp_add_before, verif_pp_trans_before
+#define VERIF_PP_INV(gn) (((gn) == NULL || (gn) == &verif_gcell) && (verif_gcell.next == NULL || verif_gcell.next == &verif_gcell) && verif_gcell.data.ptr == (void *)&verif_ncell \
+        && NCELL_OK(fsgs) && PCELL_OK && HIST_SRC(verif_pcell.hmm, verif_psrc) && 0 <= verif_dictwid && verif_dictwid < 8)
+/* ASSUMED (tool limit, listed in the evidence): the payload pointer read back from the list node's anytype_t union
+ * (void* / long / double) IS the node cell.  CBMC loses the pointer stored in that union (the proved form
+ * PTR_HINT(pnode, &verif_ncell) fails with pnode == NULL although the invariant says data.ptr == &verif_ncell), so the
+ * value is re-materialised WITHOUT proof; every node fact used below comes from the loop invariant NCELL_OK. */
+#define VERIF_PP_PRE(gn, pnode) { PTR_HINT(gn, &verif_gcell); (pnode) = &verif_ncell; verif_pp_frame_before = (pnode)->hmm.frame; \
+                                  verif_pp_add_before = verif_add_n; verif_pp_trans_before = verif_trans_calls; }
+/* decision table of the beam pruning: a node stays active exactly when its best score is within the beam; only such a
+ * node propagates; an inner node into its children exactly when its exit score is within the phone beam, a leaf into the
+ * history table (one entry) exactly when its exit score is within the word beam */
+#define VERIF_PP_POST(pnode, thresh, pth, wth) { \
+    int verif_kept = (pnode)->hmm.bestscore >= (thresh); \
+    SSW_ASSERT(verif_kept ? (pnode)->hmm.frame == fsgs->frame + 1 : (pnode)->hmm.frame == verif_pp_frame_before, "a node is kept active for the next frame exactly when its best score is within the beam"); \
+    SSW_ASSERT(verif_trans_calls == verif_pp_trans_before + ((verif_kept && !(pnode)->leaf && (pnode)->hmm.out_score >= (pth)) ? 1 : 0), "phone transition exactly for kept inner nodes whose exit score is within the phone beam"); \
+    SSW_ASSERT(verif_add_n == verif_pp_add_before + ((verif_kept && (pnode)->leaf && (pnode)->hmm.out_score >= (wth)) ? 1 : 0), "one word exit exactly for kept leaves whose exit score is within the word beam"); }
+
 #ifdef SSW_CBMC
 /* C01 producer obligation for word arcs = precondition of the (replaced) history insertion: the arc added after
  * predecessor pred leaves the state that entry(pred) entered.  The call is recorded for the callers' postconditions. */
